@@ -29,6 +29,28 @@ M = np.array([1.0, 1.0, -1.0])
 def case_strategy(draw, big=False):
     case = draw(gen.antenna(env_kinds=('ideal',), max_wires=4, max_seg=6 if not big else 10, nsrc=(1, 3),
                             taper_prob=0.1, star=1))
+    # a second grounded wire whose foot stands a fraction of a segment beside the foot of a grounded wire (a
+    # parasitic twin, a two-wire cage): separate radiators on the ground plane, not joined to each other
+    if all(o['type'] == 'wire' for o in case['objs']) and not case['xforms'] and not case['scales'] and draw(st.integers(0, 3)) == 0:
+        gw = [(i, e) for i, o in enumerate(case['objs']) for e in ('p1', 'p2') if o[e][2] == 0.0 and not o.get('taper')]
+        if gw:
+            i, e = draw(st.sampled_from(gw))
+            o = case['objs'][i]
+            foot, top = np.array(o[e], dtype=float), np.array(o['p2' if e == 'p1' else 'p1'], dtype=float)
+            L = float(np.linalg.norm(top - foot)) / o['n']
+            ang = draw(st.floats(0, 2 * math.pi))
+            off = np.array([math.cos(ang), math.sin(ang), 0.0]) * L * draw(st.floats(0.12, 0.35))
+            ang2 = draw(st.floats(0, 2 * math.pi))
+            off2 = off + np.array([math.cos(ang2), math.sin(ang2), 0.0]) * L * draw(st.floats(0.0, 0.6))
+            n2 = draw(st.sampled_from([o['n'], o['n'], max(1, o['n'] // 2), o['n'] + 1]))
+            twin = dict(type='wire', n=n2, p1=[float(x) for x in foot + off], p2=[float(x) for x in top + off2], r=o['r'], tag=None,
+                        taper=0, tmin=None, tmax=None, _rev=False)
+            twin['p1'][2] = 0.0
+            if draw(st.booleans()):
+                twin['p1'], twin['p2'] = twin['p2'], twin['p1']
+                twin['_rev'] = True
+            case['objs'].append(twin)
+            case['twin_feet'] = True
     topo, objs = gen.stand_in_topology(case)
     lds = []
     for i in range(draw(st.integers(0, 2))):
@@ -57,10 +79,13 @@ def find(topo, pt, tol, pred=None):
 
 
 def check(case):
-    why = rules.check(case)
+    # image theory does not need the separation rule for unjoined wires: waived for the twin-feet cases
+    why = rules.check(case, sep=0.0) if case.get('twin_feet') else rules.check(case)
     if why:
         return Result(skipped=why)
     labels = common.base_labels(case)
+    if case.get('twin_feet'):
+        labels.append('grounded-feet-closer-than-a-segment')
     try:
         mg = common.solved(case)
     except build.Rejected as e:
